@@ -50,8 +50,10 @@ fn main() {
         "C02" => vh::props::c02::C02,
         "C03" => vh::props::c03::C03,
         "C04" => vh::props::c04::C04,
+        "C05" => vh::props::c05::C05,
         "C06" => vh::props::c06::C06,
         "C07" => vh::props::c07::C07,
+        "C09" => vh::props::c09::C09,
         "C10" => vh::props::c10::C10,
         "C11" => vh::props::c11::C11,
         "C12" => vh::props::c12::C12,
